@@ -742,6 +742,7 @@ static void drand(uint64_t seed, long nops, int nk) {
 /* ------------------------------------------------------------------ main loop */
 int main(void) {
 	char line[4096];
+	unsigned wd_hist = (getenv("X01_WD_HIST_CPU") && atoi(getenv("X01_WD_HIST_CPU")) > 0) ? (unsigned)atoi(getenv("X01_WD_HIST_CPU")) : 240;
 	vh_install_fault_handler();
 	cur_tid = 1;
 	while (fgets(line, sizeof(line), stdin)) {
@@ -749,7 +750,11 @@ int main(void) {
 		line[strcspn(line, "\r\n")] = 0;
 		if (sscanf(line, "%31s%n", op, &n) != 1) continue;
 		vh_set_tag(line);
-		alarm((!strcmp(op, "rand") || !strcmp(op, "free") || !strcmp(op, "tight") || !strcmp(op, "drand")) ? 240 : 10);
+		/* non-termination watchdog: a single call costs microseconds; a random / free-running history (threads included) of the quick
+		 * tier up to 1 s of CPU time and 0.3 s of wall clock, of the thorough tier about ten times that.  Budgets in CPU time of the
+		 * process (robust under load) + wall clock backstop; the history budget comes from X01_WD_HIST_CPU (default 240 s) */
+		if (!strcmp(op, "rand") || !strcmp(op, "free") || !strcmp(op, "tight") || !strcmp(op, "drand")) vh_watchdog(wd_hist, wd_hist < 80 ? 3 * wd_hist : 240);
+		else vh_watchdog(3, 10);
 		if (!strcmp(op, "createrc")) {
 			static const uint32_t sizes[] = { 0, 1, 2, 3, 4, 5, 6, 7, 8, 12, 16, 24, 256, 257, 1000, 1024, 4096 };
 			printf("{\"op\":\"createrc\",\"rows\":[");
@@ -799,7 +804,7 @@ int main(void) {
 		}
 		fflush(stdout);
 	}
-	alarm(0);
+	vh_watchdog(0, 0);
 	if (HB) { for (int z = 0; z < H_NZ; z++) if (z_depth[z]) { HB = NULL; break; } }   /* still locked by a worker: leave it */
 	if (HB) hbucket_destroy(HB, NULL, NULL);
 	if (DC) data_cache_destroy(DC);
